@@ -23,6 +23,8 @@ func typeProbe(name string) string {
 	return fmt.Sprintf(`{ __type(name: %q) { kind name fields(includeDeprecated: true) { name type { ...R } args { name type { ...R } } } interfaces { name } possibleTypes { name } inputFields { name type { ...R } } enumValues(includeDeprecated: true) { name } } } %s`, name, typeRefFrag)
 }
 
+var introspectionQueryText = introspection.Query
+
 const schemaProbe = `{ __schema { queryType { name } mutationType { name } subscriptionType { name } types { name } } }`
 
 // navigation probes: reach types through other types' listings rather than by name
